@@ -294,6 +294,13 @@ void janet_async_in_flight(JanetFiber *fiber) {
 
 void janet_async_start_fiber(JanetFiber *fiber, JanetStream *stream, JanetAsyncMode mode, JanetEVCallback callback, void *state) {
     janet_assert(!fiber->ev_callback, "double async on fiber");
+    /* A stream tracks one pending reader and one pending writer. A second operation in the
+     * same direction would silently displace the first, whose fiber then never resumes. */
+    if (((mode & JANET_ASYNC_LISTEN_READ) && stream->read_fiber && stream->read_fiber != fiber) ||
+            ((mode & JANET_ASYNC_LISTEN_WRITE) && stream->write_fiber && stream->write_fiber != fiber)) {
+        janet_free(state);
+        janet_panic("stream already has a pending operation in this direction from another fiber");
+    }
     if (mode & JANET_ASYNC_LISTEN_READ) {
         stream->read_fiber = fiber;
     }
